@@ -705,6 +705,9 @@ class HttpProxyPlugin(HttpProtocolHandlerPlugin):
                     upstream_subject.get(keys[key]).replace('\\', '\\\\')
                     .replace('/', '\\/').replace('+', '\\+'),
                 )
+        # An upstream certificate may have no subject at all
+        # (the names are then in its subjectAltName only).
+        subject = subject or '/'
         alt_subj_names = [text_(self.request.host)]
         validity_in_days = 365 * 2
         timeout = 10
